@@ -1,7 +1,7 @@
 (** C12 — malformed AML is rejected with an error, never a crash, hang or stray pointer.
     Statements only; every proof is [exact <lemma>] (Aml/LexProofs.v). *)
 From Coq Require Import NArith List.
-From FF Require Import Lib.Word Gen.Consts_device_acpi_aml Aml.Stream Aml.Lex Aml.LexProofs Aml.Tree Aml.TreeSpec Aml.Parser Aml.ParserProofs Aml.ParserProofsTop Aml.ParserTotalFirst Aml.ParserTotalConn Aml.ParserTotalTop Aml.ParserTotalNonNamed Aml.ParserTotalCalls Aml.ParserTotalReloc.
+From FF Require Import Lib.Word Gen.Consts_device_acpi_aml Aml.Stream Aml.Lex Aml.LexProofs Aml.Tree Aml.TreeSpec Aml.Parser Aml.ParserProofs Aml.ParserProofsTop Aml.ParserTotalFirst Aml.ParserTotalConn Aml.ParserTotalTop Aml.ParserTotalNonNamed Aml.ParserTotalCalls Aml.ParserTotalReloc Aml.ParserTotalMerge.
 Import ListNotations.
 Local Open Scope N_scope.
 
@@ -282,3 +282,54 @@ Theorem C12_parse_total_partial_nopanic_relocateNamedObjects :
     end.
 Proof. exact relocateNamedObjects_never_panics. Qed.
 Print Assumptions C12_parse_total_partial_nopanic_relocateNamedObjects.
+
+(** ---- mergeScopeDirectives ---- *)
+
+(** [parse_total_partial] (11), passes covered: mergeScopeDirectives (the first half of each resolve pass; with Find of
+    C13, scopeOf / nestedScope, moveContents = detach + append of every child of the directive's block to the end of the
+    target scope, the three frees of the name, the block and the directive, and the walk that continues over the moved
+    objects).  From ANY state whose pool satisfies [R], valid opcode-table indexes and [pool_ok], with a live root at slot 0
+    that has no parent and whose opcode is pOpIntScopeBlock, and in which every Scope directive of the table being loaded
+    has the shape the first pass gives it - a name that is not a name segment, exactly two children: a childless object
+    that carries the target path as a []byte value (a four byte path starts with a name character, \ or ^) and a
+    pOpIntScopeBlock - from ANY live object [x]: never a panic.  In particular `nameObj.value.([]byte)` is a []byte, the
+    target that Find returns lies outside the directive's subtree (a name lookup that starts at the directive's parent
+    never descends into an object whose name is not a name segment), so each append is legal and no cycle is created, and
+    the three freed objects have no children when they are freed.  [R], the invariants, the root and the shape of the
+    remaining directives hold again; no object outside the subtree of [x] is freed.  Fuel exhaustion is not excluded. *)
+Theorem C12_parse_total_partial_nopanic_mergeScopeDirectives :
+  forall (fuel : nat) (x : N) (s : pstate) (g : ghost),
+    R (p_tree s) g ->
+    (forall i o, TreeSpec.get (p_tree s) i = Some o -> o_opcode o <> opFreed -> opInfo (o_infoIndex o) <> None) ->
+    pool_ok (p_tables s) (p_tree s) ->
+    glive g 0 -> groot g 0 ->
+    (exists o, TreeSpec.get (p_tree s) 0 = Some o /\ o_opcode o = aml_pOpIntScopeBlock) ->
+    (forall d dobj, TreeSpec.get (p_tree s) d = Some dobj -> o_opcode dobj = aml_pOpScope -> o_tableHandle dobj = p_handle s ->
+       name_lead (o_name dobj) = false /\
+       exists n c no co tbl sl,
+         kids g d = [n; c] /\ kids g n = [] /\
+         TreeSpec.get (p_tree s) n = Some no /\ o_opcode no <> aml_pOpIntScopeBlock /\ o_opcode no <> aml_pOpScope /\
+         o_value no = Some (VBytes tbl sl) /\
+         (forall s0 bytes, p_tables s0 = p_tables s -> slice_bytes s0 tbl sl = Ok bytes -> good_path bytes) /\
+         TreeSpec.get (p_tree s) c = Some co /\ o_opcode co = aml_pOpIntScopeBlock) ->
+    glive g x ->
+    match mergeScopeDirectives fuel x s with
+    | Ok (_, s') => exists g', R (p_tree s') g' /\
+        (forall i o, TreeSpec.get (p_tree s') i = Some o -> o_opcode o <> opFreed -> opInfo (o_infoIndex o) <> None) /\
+        pool_ok (p_tables s') (p_tree s') /\
+        glive g' 0 /\ groot g' 0 /\
+        (exists o, TreeSpec.get (p_tree s') 0 = Some o /\ o_opcode o = aml_pOpIntScopeBlock) /\
+        (forall d dobj, TreeSpec.get (p_tree s') d = Some dobj -> o_opcode dobj = aml_pOpScope -> o_tableHandle dobj = p_handle s' ->
+           name_lead (o_name dobj) = false /\
+           exists n c no co tbl sl,
+             kids g' d = [n; c] /\ kids g' n = [] /\
+             TreeSpec.get (p_tree s') n = Some no /\ o_opcode no <> aml_pOpIntScopeBlock /\ o_opcode no <> aml_pOpScope /\
+             o_value no = Some (VBytes tbl sl) /\
+             (forall s0 bytes, p_tables s0 = p_tables s' -> slice_bytes s0 tbl sl = Ok bytes -> good_path bytes) /\
+             TreeSpec.get (p_tree s') c = Some co /\ o_opcode co = aml_pOpIntScopeBlock) /\
+        (forall y, glive g' y -> glive g y) /\ (forall y, glive g y -> ~ desc g x y -> glive g' y)
+    | Panic => False
+    | OutOfFuel => True
+    end.
+Proof. exact mergeScopeDirectives_never_panics. Qed.
+Print Assumptions C12_parse_total_partial_nopanic_mergeScopeDirectives.
